@@ -19,7 +19,7 @@ func (c *FnCtx) specEval(st *State, e *SExpr, env map[string]*Term, old *State) 
 	return c.specEvalAt(st, e, env, old, nil)
 }
 
-func (c *FnCtx) specEvalAt(st *State, e *SExpr, env map[string]*Term, old *State, site ast.Node) *Term {
+func (c *FnCtx) specEvalAt(st *State, e *SExpr, env map[string]*Term, old *State, site ast.Node) (res *Term) {
 	sc := &specCtx{st: st, env: env, old: old}
 	if site != nil {
 		sc.site = site.Pos()
@@ -39,9 +39,19 @@ func (c *FnCtx) specEvalAt(st *State, e *SExpr, env map[string]*Term, old *State
 			old.noAssume--
 		}
 		c.obls = c.obls[:saveObls]
+		if r := recover(); r != nil {
+			if _, ok := r.(retMissing); ok {
+				res = tFalse
+				return
+			}
+			panic(r)
+		}
 	}()
 	return c.sev(sc, e)
 }
+
+// retMissing: a clause names the result of a call site that was not executed on the path at hand
+type retMissing struct{ name string }
 
 func (c *FnCtx) specErr(e *SExpr, format string, args ...interface{}) {
 	panic(unsupported{fmt.Sprintf("%s: spec: %s (in %s)", e.Pos, fmt.Sprintf(format, args...), e)})
@@ -465,6 +475,33 @@ func (c *FnCtx) sevCall(sc *specCtx, e *SExpr) *Term {
 				c.specErr(e, "contains on %s", sq.Sort)
 			}
 			return c.seqContains(sq, x)
+		case "$called":
+			// $called("pkg.F#k"): the k-th call site of pkg.F (source order) was executed on this path
+			if len(args) != 1 || args[0].Kind != "str" {
+				c.specErr(e, "$called takes one string literal")
+			}
+			if _, ok := sc.st.calls[args[0].Str]; ok {
+				return tTrue
+			}
+			return tFalse
+		case "$ret":
+			// $ret("pkg.F#k"[, i]): the (i-th) result of that call on this path; if the call was not made the enclosing
+			// clause is false
+			if len(args) < 1 || args[0].Kind != "str" {
+				c.specErr(e, "$ret takes a string literal")
+			}
+			i := 0
+			if len(args) > 1 {
+				if args[1].Kind != "int" {
+					c.specErr(e, "$ret: result index must be a literal")
+				}
+				i = int(args[1].Int)
+			}
+			rs, ok := sc.st.calls[args[0].Str]
+			if !ok || i >= len(rs) {
+				panic(retMissing{args[0].Str})
+			}
+			return rs[i]
 		case "indom":
 			// indom(m, k): k is a key of map m
 			m := c.sev(sc, args[0])
